@@ -47,6 +47,8 @@ def run(rep):
     rep.guard(c08.x2b, rep, w)         # a handler popped too many leaves JumpFinally / PopExcHandler with nothing to pop: expect() panics
     import c04
     rep.guard(c04.b5, rep, w)          # value-stack capacity below frames x locals: the unchecked push of optimised builds writes past the allocation
+    import c06
+    rep.guard(c06.s10, rep, w, 'C02')  # a program-chosen name that shadows the hidden `super` makes the VM take a module for a class: unreachable!()
 
 
 def const_usize(o):
